@@ -52,7 +52,7 @@ def match_known(known, pid, key, sc):
     return None
 
 
-def execute(scenarios, work, jobs, tag='main', module=None):
+def execute(scenarios, work, jobs, tag='main', module=None, max_events=40000):
     """scenarios -> (verdict by run id, states, nevents)"""
     os.makedirs(work, exist_ok=True)
     sp = os.path.join(work, tag + '.scen.jsonl')
@@ -61,7 +61,7 @@ def execute(scenarios, work, jobs, tag='main', module=None):
         for sc in scenarios:
             f.write(json.dumps(sc, separators=(',', ':')) + '\n')
     R.run_harness(sp, tp, os.path.join(work, tag + '.progress'))
-    verdicts, states, nevents = R.validate_trace(tp, os.path.join(work, tag + '.tlc'), jobs=jobs, module=module or 'Trace')
+    verdicts, states, nevents = R.validate_trace(tp, os.path.join(work, tag + '.tlc'), jobs=jobs, module=module or 'Trace', max_events=max_events)
     byrun = {}
     for v in verdicts:
         byrun[v['run']] = v
@@ -72,6 +72,24 @@ def execute(scenarios, work, jobs, tag='main', module=None):
             if not R.float_text_ok(kind, le, text):
                 v['viol'].append({'p': 'C06', 'at': 0, 'why': 'float text does not round-trip to the written %s' % kind})
     return byrun, states, nevents, tp
+
+
+def execute_all(scenarios, work, jobs, tag='main'):
+    """flat traces are judged by Trace.tla, run-length encoded ones (16-50 MiB messages) by TraceBig.tla"""
+    flat = [s for s in scenarios if s.get('enc', 'flat') != 'rle']
+    big = [s for s in scenarios if s.get('enc', 'flat') == 'rle']
+    byrun, states, nevents = {}, 0, 0
+    if flat:
+        b, st, ne, _ = execute(flat, work, jobs, tag=tag, module='Trace')
+        byrun.update(b)
+        states += st or 0
+        nevents += ne
+    if big:
+        b, st, ne, _ = execute(big, work, jobs, tag=tag + 'big', module='TraceBig', max_events=400)
+        byrun.update(b)
+        states += st or 0
+        nevents += ne
+    return byrun, states, nevents
 
 
 def probe_ops(scenarios, work):
@@ -137,8 +155,7 @@ def _check_property(a, pid, t0, work, viol_dir):
     by_id = {sc['id']: sc for sc in scenarios}
     if len(by_id) != len(scenarios):
         raise R.ToolError('duplicate scenario ids in the generated set')
-    module = getattr(G, 'MODULE', {}).get(pid)
-    byrun, states, nevents, trace_path = execute(scenarios, work, a.jobs, module=module)
+    byrun, states, nevents = execute_all(scenarios, work, a.jobs)
 
     # collect
     mine = {}     # key -> (scenario id, violation)
@@ -169,7 +186,7 @@ def _check_property(a, pid, t0, work, viol_dir):
             if rid not in seen and rid in by_id:
                 seen.add(rid)
                 redo.append(by_id[rid])
-        rb, _, _, _ = execute(redo[:40], work, a.jobs, tag='repro', module=module)
+        rb, _, _ = execute_all(redo[:40], work, a.jobs, tag='repro')
         for k, rid, x in new:
             if rid in seen and rid in rb:
                 again = {viol_key(y) for y in rb[rid]['viol']}
